@@ -283,6 +283,8 @@ PROPS["C06"] = {
     "min_evals": {"quick": 5000, "thorough": 300000},
     "legs": [
         Leg("history", "c06", "^TestHistory$", checks=(2000, 150000), shards=(6, 18), tests=["history"], shard_env=[{"TZ": "UTC"}, {"TZ": "Europe/London"}, {"TZ": "America/New_York"}, {"TZ": "Asia/Kolkata"}, {"TZ": "Australia/Lord_Howe"}, {"TZ": "Europe/Moscow"}]),
+        Leg("parallel", "c06", "^TestParallel$", engine="sched", checks=(400, 8000), shards=(2, 16), tests=["parallel"], replay_attempts=5),
+        Leg("parallel-race", "c06", "^TestParallel$", engine="sched", race=True, checks=(100, 2000), shards=(2, 8), tests=["parallel"], replay_attempts=5),
         Leg("history-386", "c06", "^TestHistory$", goarch="386", checks=(2000, 40000), shards=(1, 8), tests=["history"]),
         Leg("history-no-tzdata", "c06", "^TestHistory$", wrap="no-tzdata", tags="notzdata", env={"ZONEINFO": ""}, checks=(2000, 40000), shards=(1, 8), tests=["history"]),
     ],
@@ -303,6 +305,8 @@ PROPS["C17"] = {
         Leg("history", "c17", "^TestHistory$", checks=(2000, 150000), shards=(6, 18), tests=["history"], shard_env=[{"TZ": "UTC"}, {"TZ": "Europe/London"}, {"TZ": "America/New_York"}, {"TZ": "Asia/Kolkata"}, {"TZ": "Australia/Lord_Howe"}, {"TZ": "Europe/Moscow"}]),
         Leg("file-handler-reuse", "c17", "^TestFileHandlerReuse$", checks=(800, 20000), shards=(2, 8), tests=["file-handler-reuse"]),
         Leg("display-program", "c17", "^TestDisplayProgram$", engine="process", app=["displayrtcm3"], checks=(60, 2000), shards=(8, 16), tests=["display-program"]),
+        Leg("parallel", "c17", "^TestParallel$", engine="sched", checks=(400, 8000), shards=(2, 16), tests=["parallel"], replay_attempts=5),
+        Leg("parallel-race", "c17", "^TestParallel$", engine="sched", race=True, checks=(100, 2000), shards=(2, 8), tests=["parallel"], replay_attempts=5),
         Leg("history-386", "c17", "^TestHistory$", goarch="386", checks=(2000, 40000), shards=(1, 8), tests=["history"]),
         Leg("history-no-tzdata", "c17", "^TestHistory$", wrap="no-tzdata", tags="notzdata", env={"ZONEINFO": ""}, checks=(2000, 40000), shards=(1, 8), tests=["history"]),
     ],
